@@ -148,7 +148,7 @@ def check_step_model(run, tier, rng):
     reps = 14 if tier == "quick" else 80
     for t in range(reps):
         nr = np.random.RandomState(rng.randrange(2 ** 31))
-        d = rng.choice([1, 2, 3])
+        d = rng.choice([1, 2] if tier == "quick" else [1, 2, 3])
         n = rng.choice([4 * d, 5 * d + 2])
         X = np.round(nr.standard_t(1.5, size=(n, d)) * 8) / 8 + rng.choice([0.0, 2.0])
         mu1, S1, nu1 = fit_mvstud(X.copy(), max_iter=1, tolerance=0.0)
@@ -158,13 +158,16 @@ def check_step_model(run, tier, rng):
         mu0 = np.median(data, 1)
         S0 = np.cov(data) * (n - 1) / n + (1 / n) * np.diag(np.var(data, axis=1))
         S0 = np.atleast_2d(S0)
-        cases.append((X, mu0, S0, float(nu1), mu1, np.atleast_2d(S1)))
+        # initial values enter the model as nearby rationals with small denominators (error << the 1e-9 comparison tolerance)
+        mu0 = np.array([float(Fraction(float(v)).limit_denominator(2 ** 20)) for v in mu0])
+        S0q = [[Fraction(float(v)).limit_denominator(10 ** 9) for v in r] for r in S0]
+        cases.append((X, mu0, S0q, float(nu1), mu1, np.atleast_2d(S1)))
         run.case(key=("step", t), nontrivial=True)
     items = []
     for (X, mu0, S0, nu1, mu1, S1) in cases:
         xs = "[" + "; ".join(qlist(r) for r in X) + "]"
         Sq = "[" + "; ".join(qlist(r) for r in S0) + "]"
-        items.append(f"(step {xs} {qlist(mu0)} {Sq} {qlit(Fraction(nu1))})")
+        items.append(f"(step {xs} {qlist(mu0)} {Sq} {qlit(Fraction(nu1).limit_denominator(10 ** 12))})")
     if not items:
         return
     src = f"""From Coq Require Import List QArith.
